@@ -14,8 +14,12 @@ import ybuild
 from props import PROPS
 
 VERIF = ybuild.VERIF
-EVID = os.path.join(VERIF, "evidence")
-FAIL = os.path.join(VERIF, "failures")
+# VERIF_OUT redirects evidence and failure files (used when a check is pointed at a
+# scratch tree via VERIF_REPO, e.g. while testing seeded changes), so that the
+# committed evidence always comes from /repo itself.
+_OUT = os.environ.get("VERIF_OUT")
+EVID = os.path.join(_OUT or VERIF, "evidence")
+FAIL = os.path.join(_OUT or VERIF, "failures")
 CORPUS = os.path.join(VERIF, "corpus")
 KNOWN_FILE = os.path.join(VERIF, "known_findings.json")
 NWORKERS = int(os.environ.get("VERIF_WORKERS", "16"))
@@ -162,7 +166,7 @@ def run_rc(pid, tier, seed, replay=None):
         try:
             p = subprocess.run(prlimit_cmd([exe, "--replay", path] + base_args), env=env,
                                stdout=subprocess.PIPE, stderr=subprocess.STDOUT,
-                               timeout=P.get("replay_timeout", 600))
+                               timeout=P.get("replay_timeout", 120))
         except subprocess.TimeoutExpired:
             return "timeout", [], "replay timed out"
         out = p.stdout.decode(errors="replace")
@@ -227,7 +231,7 @@ def run_rc(pid, tier, seed, replay=None):
             cmd = prlimit_cmd([exe, "--out", out, "--cases", str(cases), "--budget", str(budget)] + base_args)
             lf = open(os.path.join(work, "w%d.log" % w), "wb")
             procs.append((subprocess.Popen(cmd, env=e, stdout=lf, stderr=subprocess.STDOUT), lf, w))
-        hard = budget * 4 + 600
+        hard = budget * 2 + 120
         for p, lf, w in procs:
             try:
                 p.wait(timeout=max(1, hard - (time.time() - t0)))
@@ -242,7 +246,15 @@ def run_rc(pid, tier, seed, replay=None):
 
         # 3. failures reported by workers (shrunk by rapidcheck) and crashed workers
         cands = [f for f, _ in tot["failures"]]
+        hung = []
         for p, lf, w in procs:
+            if p.returncode == -9:
+                # killed at the hard limit: a case that does not finish is "inconclusive"
+                # here (hangs are judged by C15 with a dedicated watchdog), keep it for the log
+                cur = outs[w] + ".current"
+                if os.path.exists(cur):
+                    hung.append(open(cur).read()[:600])
+                continue
             if p.returncode not in (0, 10) or (p.returncode == 10 and not os.path.exists(outs[w])):
                 cur = outs[w] + ".current"
                 if os.path.exists(cur):
@@ -283,6 +295,7 @@ def run_rc(pid, tier, seed, replay=None):
             "discards": tot["discards"],
             "known_findings_hit": known_hit,
             "workers": NWORKERS,
+            "inconclusive_unfinished_cases": hung[:5],
             "engine": "rapidcheck (choice-tape generators, structural shrinking) + plain replay",
         }
         write_evidence(pid, tier, seed, wall, cov, len(violations), P.get("assumptions", []))
